@@ -1,4 +1,5 @@
-use libwild::verif_api as v;
+//! Dispatch of line-protocol requests to per-property op modules. Each `ops_*.rs` exposes
+//! `pub fn dispatch(t: &[&str]) -> Option<String>` and returns `None` for ops it does not own.
 
 pub fn panic_class(msg: &str) -> &'static str {
     if msg.contains("overflow") {
@@ -10,7 +11,8 @@ pub fn panic_class(msg: &str) -> &'static str {
     }
 }
 
-fn u(s: &str) -> u64 {
+/// Decimal or 0x-hex u64.
+pub fn u(s: &str) -> u64 {
     if let Some(h) = s.strip_prefix("0x") {
         u64::from_str_radix(h, 16).expect("hex")
     } else {
@@ -18,15 +20,23 @@ fn u(s: &str) -> u64 {
     }
 }
 
-pub fn dispatch(t: &[&str]) -> String {
-    match t[0] {
-        "align-new" => match v::alignment_new(u(t[1])) {
-            Some(e) => format!("ok {e}"),
-            None => "err".into(),
-        },
-        "align-up" => format!("0x{:x}", v::align_up(u(t[1]) as u8, u(t[2]))),
-        "align-down" => format!("0x{:x}", v::align_down(u(t[1]) as u8, u(t[2]))),
-        "align-mod" => format!("0x{:x}", v::align_modulo(u(t[1]) as u8, u(t[2]), u(t[3]))),
-        _ => "bad-op".into(),
+/// Lowercase hex of bytes ("-" for empty).
+pub fn hex(bytes: &[u8]) -> String {
+    if bytes.is_empty() {
+        return "-".into();
     }
+    bytes.iter().map(|b| format!("{b:02x}")).collect()
+}
+
+pub fn unhex(s: &str) -> Vec<u8> {
+    if s == "-" {
+        return Vec::new();
+    }
+    (0..s.len() / 2).map(|i| u8::from_str_radix(&s[2 * i..2 * i + 2], 16).expect("hex byte")).collect()
+}
+
+pub fn dispatch(t: &[&str]) -> String {
+    None.or_else(|| crate::ops_c29::dispatch(t))
+        // ADD-OPS-HERE (one `.or_else(|| crate::ops_cNN::dispatch(t))` line per module)
+        .unwrap_or_else(|| "bad-op".into())
 }
